@@ -519,13 +519,7 @@ def diff_codes(run: dict, base: dict) -> str:
 def run(tier: str, seed: int) -> int:
     rep = Report(PROP, tier, seed, "model_checking")
     hook = hook_applied()
-    dev = os.environ.get("VF_C24_DEVCACHE")
-    if dev and os.path.exists(dev):
-        emitted, raising = json.load(open(dev))
-    else:
-        emitted, raising = model_runs(rep, tier)
-        if dev:
-            json.dump([emitted, raising], open(dev, "w"))
+    emitted, raising = model_runs(rep, tier)
     rep.exhaustive = True
     root = scratch("c24")
     try:
